@@ -6,7 +6,10 @@ Open Scope string_scope.
 
 (* ------------------------------------------------------------------------------------ types *)
 
-(* Type variables are de Bruijn indices.  Records and enums are closed rows. *)
+(* Type variables and record-row variables are de Bruijn indices in two separate index spaces
+   ([TForall] binds a type variable, [TForallR] a row variable).  A record type is a list of rows
+   ending either closed ([RNil]) or in a row variable ([RVar]): {f1 : T1, ..., fn : Tn ; r}.
+   Enums are closed rows. *)
 Inductive ty :=
 | TDyn | TNum | TStr | TBool
 | TArr (t : ty)
@@ -16,9 +19,11 @@ Inductive ty :=
 | TEnum (e : erows)             (* closed enum rows: bare tags and variants with a payload type *)
 | TVar (n : nat)
 | TForall (t : ty)
+| TForallR (t : ty)
 with rows :=
 | RNil
 | RCons (f : string) (t : ty) (r : rows)
+| RVar (n : nat)
 with erows :=
 | ENil
 | EBare (t : string) (e : erows)
@@ -29,23 +34,27 @@ with rows_mut := Induction for rows Sort Prop
 with erows_mut := Induction for erows Sort Prop.
 Combined Scheme ty_rows_ind from ty_mut, rows_mut, erows_mut.
 
-(* the row of tag [t]: None (absent), Some None (bare tag), Some (Some T) (variant carrying a T);
-   the first row for a tag shadows later ones *)
-Fixpoint erows_lookup (t : string) (e : erows) : option (option ty) :=
+(* An enum row is identified by its tag AND whether it carries a payload: [| 'B, 'B Number |] has two
+   distinct rows (the typechecker treats them so).  [erows_lookup t arg e]: the first row for tag [t]
+   with ([arg] = true) or without a payload: None (absent), Some None (bare), Some (Some T). *)
+Fixpoint erows_lookup (t : string) (arg : bool) (e : erows) : option (option ty) :=
   match e with
   | ENil => None
-  | EBare u e' => if String.eqb t u then Some None else erows_lookup t e'
-  | EArg u T e' => if String.eqb t u then Some (Some T) else erows_lookup t e'
+  | EBare u e' => if String.eqb t u && negb arg then Some None else erows_lookup t arg e'
+  | EArg u T e' => if String.eqb t u && arg then Some (Some T) else erows_lookup t arg e'
   end.
 
 Fixpoint rows_lookup (f : string) (r : rows) : option ty :=
   match r with
-  | RNil => None
+  | RNil | RVar _ => None
   | RCons g t r' => if String.eqb f g then Some t else rows_lookup f r'
   end.
 
 Fixpoint rows_fields (r : rows) : list string :=
-  match r with RNil => [] | RCons f _ r' => f :: rows_fields r' end.
+  match r with RNil | RVar _ => [] | RCons f _ r' => f :: rows_fields r' end.
+
+Fixpoint rows_closed (r : rows) : bool :=
+  match r with RNil => true | RVar _ => false | RCons _ _ r' => rows_closed r' end.
 
 (* shift c T: add 1 to the free type variables >= c *)
 Fixpoint shift (c : nat) (T : ty) : ty :=
@@ -58,17 +67,45 @@ Fixpoint shift (c : nat) (T : ty) : ty :=
   | TEnum e => TEnum (shift_erows c e)
   | TVar n => if Nat.leb c n then TVar (S n) else TVar n
   | TForall t => TForall (shift (S c) t)
+  | TForallR t => TForallR (shift c t)
   end
 with shift_rows (c : nat) (r : rows) : rows :=
   match r with
   | RNil => RNil
   | RCons f t r' => RCons f (shift c t) (shift_rows c r')
+  | RVar n => RVar n
   end
 with shift_erows (c : nat) (e : erows) : erows :=
   match e with
   | ENil => ENil
   | EBare t e' => EBare t (shift_erows c e')
   | EArg t T e' => EArg t (shift c T) (shift_erows c e')
+  end.
+
+(* shiftR c T: add 1 to the free row variables >= c *)
+Fixpoint shiftR (c : nat) (T : ty) : ty :=
+  match T with
+  | TDyn => TDyn | TNum => TNum | TStr => TStr | TBool => TBool
+  | TArr t => TArr (shiftR c t)
+  | TFun a b => TFun (shiftR c a) (shiftR c b)
+  | TRec r => TRec (shiftR_rows c r)
+  | TDict t => TDict (shiftR c t)
+  | TEnum e => TEnum (shiftR_erows c e)
+  | TVar n => TVar n
+  | TForall t => TForall (shiftR c t)
+  | TForallR t => TForallR (shiftR (S c) t)
+  end
+with shiftR_rows (c : nat) (r : rows) : rows :=
+  match r with
+  | RNil => RNil
+  | RCons f t r' => RCons f (shiftR c t) (shiftR_rows c r')
+  | RVar n => if Nat.leb c n then RVar (S n) else RVar n
+  end
+with shiftR_erows (c : nat) (e : erows) : erows :=
+  match e with
+  | ENil => ENil
+  | EBare t e' => EBare t (shiftR_erows c e')
+  | EArg t T e' => EArg t (shiftR c T) (shiftR_erows c e')
   end.
 
 (* subst k S T: replace variable k by S (shifted under binders), decrement the variables above k *)
@@ -86,17 +123,50 @@ Fixpoint subst (k : nat) (S : ty) (T : ty) : ty :=
               | Gt => TVar (pred n)
               end
   | TForall t => TForall (subst (Datatypes.S k) (shift 0 S) t)
+  | TForallR t => TForallR (subst k (shiftR 0 S) t)
   end
 with subst_rows (k : nat) (S : ty) (r : rows) : rows :=
   match r with
   | RNil => RNil
   | RCons f t r' => RCons f (subst k S t) (subst_rows k S r')
+  | RVar n => RVar n
   end
 with subst_erows (k : nat) (S : ty) (e : erows) : erows :=
   match e with
   | ENil => ENil
   | EBare t e' => EBare t (subst_erows k S e')
   | EArg t T e' => EArg t (subst k S T) (subst_erows k S e')
+  end.
+
+(* substR k R T: replace the row variable k by the rows R (which end closed or in another row
+   variable): substituting at the end of a record type appends R's rows *)
+Fixpoint substR (k : nat) (R : rows) (T : ty) : ty :=
+  match T with
+  | TDyn => TDyn | TNum => TNum | TStr => TStr | TBool => TBool
+  | TArr t => TArr (substR k R t)
+  | TFun a b => TFun (substR k R a) (substR k R b)
+  | TRec r => TRec (substR_rows k R r)
+  | TDict t => TDict (substR k R t)
+  | TEnum e => TEnum (substR_erows k R e)
+  | TVar n => TVar n
+  | TForall t => TForall (substR k (shift_rows 0 R) t)
+  | TForallR t => TForallR (substR (Datatypes.S k) (shiftR_rows 0 R) t)
+  end
+with substR_rows (k : nat) (R : rows) (r : rows) : rows :=
+  match r with
+  | RNil => RNil
+  | RCons f t r' => RCons f (substR k R t) (substR_rows k R r')
+  | RVar n => match Nat.compare n k with
+              | Eq => R
+              | Lt => RVar n
+              | Gt => RVar (pred n)
+              end
+  end
+with substR_erows (k : nat) (R : rows) (e : erows) : erows :=
+  match e with
+  | ENil => ENil
+  | EBare t e' => EBare t (substR_erows k R e')
+  | EArg t T e' => EArg t (substR k R T) (substR_erows k R e')
   end.
 
 (* first-order types: what a contract [Cast e T] can check in this fragment *)
@@ -107,12 +177,14 @@ Fixpoint first_order (T : ty) : bool :=
   | TRec r => first_order_rows r
   | TDict t => first_order t
   | TEnum e => first_order_erows e
-  | TFun _ _ | TVar _ | TForall _ => false
+  | TFun _ _ | TVar _ | TForall _ | TForallR _ => false
   end
 with first_order_rows (r : rows) : bool :=
+  (* closed, no duplicate label *)
   match r with
   | RNil => true
-  | RCons _ t r' => first_order t && first_order_rows r'
+  | RVar _ => false
+  | RCons f t r' => first_order t && negb (existsb (String.eqb f) (rows_fields r')) && first_order_rows r'
   end
 with first_order_erows (e : erows) : bool :=
   match e with
